@@ -197,32 +197,36 @@ func (c *Conn) processEncryptedClientHello(h *clientHello, isRetry bool) (*clien
 		}) == -1 {
 			continue
 		}
-		if c.hpkeCtx == nil && len(h.echExt.Enc) > 0 {
+		// On the first ClientHello, each candidate key gets its own HPKE
+		// context. A retried ClientHello reuses the established context.
+		ctx := c.hpkeCtx
+		if ctx == nil && len(h.echExt.Enc) > 0 {
 			echPriv, err := hpke.ParseHPKEPrivateKey(cfg.KEM, key.PrivateKey)
 			if err != nil {
 				return nil, err
 			}
 			info := append([]byte("tls ech\x00"), key.Config...)
-			ctx, err := hpke.SetupReceipient(cfg.KEM, h.echExt.CipherSuite.KDF, h.echExt.CipherSuite.AEAD, echPriv, info, h.echExt.Enc)
-			if err != nil {
+			if ctx, err = hpke.SetupReceipient(cfg.KEM, h.echExt.CipherSuite.KDF, h.echExt.CipherSuite.AEAD, echPriv, info, h.echExt.Enc); err != nil {
 				continue
 			}
-			c.hpkeCtx = ctx
 		}
-		if c.hpkeCtx == nil {
+		if ctx == nil {
 			return nil, ErrIllegalParameter
 		}
 		aad, err := h.marshalAAD()
 		if err != nil {
 			return nil, err
 		}
-		innerBytes, err = c.hpkeCtx.Open(aad, h.echExt.Payload)
+		b, err := ctx.Open(aad, h.echExt.Payload)
 		if err != nil {
 			continue
 		}
 		if string(cfg.PublicName) != h.ServerName {
 			return nil, ErrIllegalParameter
 		}
+		c.hpkeCtx = ctx
+		innerBytes = b
+		break
 	}
 	if innerBytes == nil {
 		// Section 7.1.1, regarding a retried ClientHello:
